@@ -95,6 +95,19 @@ def _walk(args):
             except Exception as e:
                 ev['exc'] = '%s: %s' % (type(e).__name__, str(e)[:150])
             evs.append(ev)
+    # mode sanitisation: how dump() understood a mode argument (observed through the shape of its output)
+    if wid % 5 == 0:
+        g0 = hs.Grid(version='2.0', columns=[('a', [])])
+        for arg in rng.sample(['zinc', 'ZINC', 'Zinc', 'json', 'JSON', 'jSoN', 'text/zinc', 'application/json', 'TEXT/ZINC',
+                               'xml', '', 'zinc ', 'text/json', 'csv'], 4):
+            try:
+                out = hs.dump(g0, mode=arg)
+                fmtobs = 'json' if out.lstrip().startswith('{') else 'zinc'
+            except ValueError:
+                fmtobs = 'ValueError'
+            except Exception as e:
+                fmtobs = type(e).__name__
+            evs.append({'op': 'mode', 'text': absval.cps(arg), 'fmt': fmtobs, 'exc': ''})
     # every event carries every field (records of one shape for TLC)
     for ev in evs:
         for k, d in (('i', 0), ('j', 0), ('text', []), ('text2', []), ('tree', [0]), ('tree2', [0]), ('before', []),
